@@ -43,7 +43,7 @@ def clean_inputs(ir, rng, n, tries=None, size_cap=6, data_mode=None, par=False):
     return out
 
 
-def check_c(proc, rng, workdir: Path, ninputs=5, openmp=False, sanitize=True, keep=False, specs=None, size_cap=6):
+def check_c(proc, rng, workdir: Path, ninputs=5, openmp=False, sanitize=True, keep=False, specs=None, size_cap=6, only_exact=False):
     """status:
        'exo_reject'     exo refused to compile (documented rejection)        -> not a case
        'exo_crash'      exo's compiler raised something undocumented           (C04d/C15)
@@ -73,6 +73,10 @@ def check_c(proc, rng, workdir: Path, ninputs=5, openmp=False, sanitize=True, ke
                 ins.append((spec, vals, cfg, res))
     else:
         ins = clean_inputs(ir, rng, ninputs, size_cap=size_cap)
+    if only_exact:
+        # data arithmetic that leaves the C type (e.g. int32 overflow) is the program's
+        # business, not the code generator's: such inputs are not used
+        ins = [x for x in ins if x[3].exact_ok]
     if not ins:
         r.status = "no_input"
         return r
